@@ -10,6 +10,20 @@ import (
 // If the system-specific or Go-specific error cannot be mapped to anything, it
 // will be logged and EIO will be returned.
 func ExtractErrno(err error) Errno {
+	// An errno anywhere in the chain is the most specific answer. It has to
+	// be looked for first: syscall.Errno also matches the generic os.Err*
+	// sentinels through its Is method (EPERM and EACCES are both
+	// os.ErrPermission, ENOTEMPTY and EEXIST both os.ErrExist), which would
+	// flatten distinct errnos into one.
+	var errno Errno
+	if errors.As(err, &errno) {
+		return errno
+	}
+
+	if e := sysErrno(err); e != 0 {
+		return e
+	}
+
 	for _, pair := range []struct {
 		error
 		Errno
@@ -22,15 +36,6 @@ func ExtractErrno(err error) Errno {
 		if errors.Is(err, pair.error) {
 			return pair.Errno
 		}
-	}
-
-	var errno Errno
-	if errors.As(err, &errno) {
-		return errno
-	}
-
-	if e := sysErrno(err); e != 0 {
-		return e
 	}
 
 	// Default case.
